@@ -77,6 +77,30 @@ func c20E2E(key string) (lines []string, errText string, panics []string) {
 	return lines, errText, s.Panics
 }
 
+// c20JSON: a log line {"<key>":"v"} read with `| json` (no field list) must expose the value under the sanitised key.
+func c20JSON(key string) (labels map[string]string, errText string, panics []string) {
+	doc, _ := json.Marshal(map[string]string{key: "v"})
+	fake := fakedocker.New([]fakedocker.Container{{ID: "c", Name: "/c", Image: "img", State: "running", Labels: map[string]string{},
+		Log: fakedocker.Encode([]fakedocker.Rec{{Stream: 1, TS: fakedocker.TS(1 * sec), Msg: string(doc)}})}})
+	s := vsched.RunMain(vsched.NewCtx(nil), func() {
+		q, _ := dockerlog.NewQuerier(fake)
+		data, err := newEngine(q).Eval(context.Background(), `{} | json`, logqlengine.EvalParams{Start: 0, End: otelstorage.Timestamp(3 * sec), Step: time.Second, Limit: -1})
+		if err != nil {
+			errText = err.Error()
+			return
+		}
+		if data.Type == lokiapi.StreamsResultQueryResponseData {
+			for _, st := range data.StreamsResult.Result {
+				labels = map[string]string{}
+				for k, v := range st.Stream.Value {
+					labels[k] = v
+				}
+			}
+		}
+	})
+	return labels, errText, s.Panics
+}
+
 func c20Check(r *vkit.Run, in c20Input) {
 	r.Begin("C20", in)
 	key := in.Key
@@ -117,6 +141,26 @@ func c20Check(r *vkit.Run, in c20Input) {
 		r.Fail("C20/e2e", in, nil, errText, []string{"from-carrier"}, fmt.Sprintf("selector {%s=\"v\"} for Docker label %q fails: %s", got, key, errText), finding)
 	case len(lines) != 1 || lines[0] != "from-carrier":
 		r.Fail("C20/e2e", in, nil, lines, []string{"from-carrier"}, fmt.Sprintf("selector {%s=\"v\"} must select exactly the container carrying Docker label %q=v", got, key), "")
+	}
+	// the JSON-key side: only for keys JSON can carry verbatim
+	if utf8.ValidString(key) && got != "msg" {
+		labels, jerr, jp := c20JSON(key)
+		r.Eval()
+		switch {
+		case len(jp) > 0:
+			r.Fail("C20/json", in, nil, jp, nil, "panic", "")
+		case jerr != "":
+			r.Fail("C20/json", in, nil, jerr, nil, "`{} | json` failed: "+jerr, "")
+		case labels[got] != "v":
+			r.Fail("C20/json", in, nil, labels, map[string]string{got: "v"}, fmt.Sprintf("JSON key %q read by `| json` must be exposed as label %s", key, got), "")
+		default:
+			for k := range labels {
+				if !validName.MatchString(k) {
+					r.Fail("C20/json", in, nil, labels, nil, fmt.Sprintf("`| json` exposed the invalid label name %q for key %q", k, key), "")
+					break
+				}
+			}
+		}
 	}
 }
 
